@@ -378,7 +378,11 @@ class Manager:
         missed pings)
         """
         if self._connection:
-            self._connection.disconnect()
+            # This connection looks dead. A graceful close first waits for
+            # the send buffer to drain (and, with our Outbound registered as
+            # a paused producer, may never finish at all), which a silent
+            # peer never allows: drop it right away.
+            self._connection.transport.abortConnection()
 
     def _send_ping_reset_timer(self):
         """
